@@ -84,6 +84,9 @@ type Explorer struct {
 	verbose      bool
 	dumpDir      string
 	nDumped      int
+	dumpMax      int
+	dumpEvery    int
+	dumpSeen     int
 	maxUnroll    int
 	stubsUsed    map[string]bool
 	exhausted    bool
@@ -394,8 +397,8 @@ func (e *Exec) flushPending() {
 			want = append(want, p.cond)
 		}
 		bad := Or(bads...)
-		e.x.dumpVerdict(e.pc, bad)
 		r, model := e.x.solver.Check(e.pc, bad, want)
+		e.x.dumpVerdict(e.pc, bad, r)
 		switch r {
 		case rUnsat:
 			e.x.nVerdict += len(e.pending)
@@ -484,8 +487,8 @@ func (e *Exec) verdict1(label, site string, bad *Term) bool {
 		e.x.nVerdictUnsat++
 		return false
 	}
-	e.x.dumpVerdict(e.pc, bad)
 	r, model := e.x.solver.Check(e.pc, bad, e.wantTerms())
+	e.x.dumpVerdict(e.pc, bad, r)
 	switch r {
 	case rUnsat:
 		e.x.nVerdictUnsat++
@@ -498,12 +501,18 @@ func (e *Exec) verdict1(label, site string, bad *Term) bool {
 	return true
 }
 
-func (x *Explorer) dumpVerdict(pc []*Term, bad *Term) {
-	if x.dumpDir == "" || x.nDumped >= 400 {
+// dumpVerdict writes a verdict query as a standalone script (for the cross-solver pass); the answer the
+// primary solver gave is recorded in the first line. Queries are sampled: every dumpEvery-th one.
+func (x *Explorer) dumpVerdict(pc []*Term, bad *Term, res string) {
+	if x.dumpDir == "" || x.nDumped >= x.dumpMax {
+		return
+	}
+	x.dumpSeen++
+	if x.dumpSeen%x.dumpEvery != 1 && x.dumpEvery > 1 {
 		return
 	}
 	x.nDumped++
-	os.WriteFile(fmt.Sprintf("%s/q%04d.smt2", x.dumpDir, x.nDumped), []byte(DumpQuery(pc, bad)), 0o644)
+	os.WriteFile(fmt.Sprintf("%s/q%04d.smt2", x.dumpDir, x.nDumped), []byte("; expect "+res+"\n"+DumpQuery(pc, bad)), 0o644)
 }
 
 // concretePanic: a panic reached on a feasible path with concrete cause.
